@@ -520,3 +520,81 @@ def overlap_case(rng, variant=None, mode=None):
     meta = {"pattern": "overlap:%s:%s" % (variant, mode), "cell": "ortho", "stream": "overlap", "override_planned": 0,
             "combo": {"bond": "TT", "angle": "s0N-r0N", "dihedral": "s0N-r0N", "improper": "s0N-r0N"}}
     return {"s": sj, "p": pj, "r": rj, "opts": opts, "meta": meta}
+
+
+def partial_overlap_case(rng, variant=None):
+    """two (or more) selected matches whose REMOVAL sets overlap partially — they share some but not all removed atoms —
+    with the ignore flag (mostly) on: every atom removed by any selected match must be gone exactly once, the terms
+    touching it gone, the other original terms alive, each match's pattern terms present once.
+    'chain': A0-B1-B2-B3-A4, two-fold symmetric about B2, search A-B-B found from both ends (both remove B2);
+    'star' : centre X with 2-4 arms Y-Z at right angles, search Z-Y-X found once per arm (all remove X).
+    The replacement keeps the outer atom, changes the next one in place and puts a new atom NEAR the shared one, off the
+    symmetry axis, so that the atoms inserted by different matches land in different places."""
+    variant = variant or rng.choice(["chain", "star"])
+    F = Fraction
+    if variant == "chain":
+        ea, eb = rng.choice([("C", "N"), ("Si", "O"), ("C", "O")])
+        base = [(F(-2), F(-1), F(0)), (F(-3, 4), F(-1), F(0)), (F(0), F(0), F(0))]       # A0, B1, B2 (B2 on the axis)
+        pts = base + [(-base[1][0], -base[1][1], base[1][2]), (-base[0][0], -base[0][1], base[0][2])]
+        elems = [ea, eb, eb, eb, ea]
+        pel = [ea, eb, eb]
+        ppos = base
+        bonds = [[0, 1], [1, 2], [2, 3], [3, 4]]
+        angles = [[0, 1, 2], [1, 2, 3], [2, 3, 4]]
+    else:
+        ex, ey, ez = rng.choice([("Si", "O", "C"), ("Zr", "O", "C"), ("N", "C", "H")])
+        arm = [(F(5, 4), F(0), F(0)), (F(9, 4), F(3, 4), F(0))]                            # Y, Z of the first arm
+        rots = rng.sample([0, 1, 2, 3], rng.randint(2, 4))
+
+        def rz(k, v):
+            x, y, z = v
+            for _ in range(k):
+                x, y = -y, x
+            return (x, y, z)
+        pts, elems, bonds, angles = [(F(0), F(0), F(0))], [ex], [], []
+        for k in rots:
+            iy = len(pts)
+            pts += [rz(k, arm[0]), rz(k, arm[1])]
+            elems += [ey, ez]
+            bonds += [[0, iy], [iy, iy + 1]]
+            angles += [[0, iy, iy + 1]]
+        k0 = rots[0]
+        pel = [ez, ey, ex]
+        ppos = [rz(k0, arm[1]), rz(k0, arm[0]), (F(0), F(0), F(0))]
+    R = findlib.rotmat(findlib.rat_quat(rng, rng.choice(["identity", "axis90", "random", "random"])))
+    org = [F(rng.randint(5 * 8, 15 * 8), 8) for _ in range(3)]
+    pos = [[float(x + o) % 20.0 for x, o in zip(findlib.matvec(R, list(pt)), org)] for pt in pts]
+    n0 = len(pos)
+    by = rng.choice(BYSTANDER_ELEMENTS)
+    elems = elems + [by, by]
+    pos += [[float(F(rng.randint(0, 19 * 8), 8)) for _ in range(3)] for _ in range(2)]
+    cell = [[20.0, 0, 0], [0, 20.0, 0], [0, 0, 20.0]]
+    order = list(range(1, len(elems) + 1))
+    rng.shuffle(order)
+    sj = findlib.struct_json(elems, pos, cell, charges=[F(o, 64) for o in order], groups=[rng.randint(0, 2) for _ in elems])
+    sj["types"]["label"] = [l + "s1" for l in sj["types"]["label"]]
+    sj["types"]["pair"] = [pair_text("s", l, rng) for l in sj["types"]["label"]]
+    bonds = bonds + [[rng.randrange(n0), n0], [n0, n0 + 1]]
+    sj["terms"]["bond"] = [{"a": b if rng.random() < 0.5 else b[::-1], "ty": rng.randrange(2), "x": []} for b in bonds]
+    sj["types"]["bond"] = [coeff_text("s", "bond", i, rng) for i in range(2)]
+    sj["terms"]["angle"] = [{"a": a if rng.random() < 0.5 else a[::-1], "ty": 0, "x": []} for a in angles]
+    sj["types"]["angle"] = [coeff_text("s", "angle", 0, rng)]
+    pj = search_json(pel, [[float(v) for v in q_] for q_ in ppos])
+    # replacement: outer atom kept, second changed in place, third a new atom near the shared one, off the axis
+    new1, new2 = rng.sample([e for e in NEW_ELEMENTS if e not in pel], 2)
+    off = (F(1, 4), F(0), F(1, 4)) if variant == "chain" else (F(1, 4), F(1, 8), F(1, 4))
+    rpos = [ppos[0], ppos[1], tuple(a + b for a, b in zip(ppos[2], off))]
+    rel = [pel[0], new1, new2]
+    rj = findlib.struct_json(rel, [[float(v) for v in q_] for q_ in rpos], None, charges=[F(-1, 64), F(-2, 64), F(-3, 64)],
+                             groups=[1, 2, 3])
+    rj["types"]["label"] = [l + "r1" for l in rj["types"]["label"]]
+    rj["types"]["pair"] = [pair_text("r", l, rng) for l in rj["types"]["label"]]
+    rj["terms"]["bond"] = [{"a": [0, 1], "ty": 0, "x": []}, {"a": [2, 1] if rng.random() < 0.5 else [1, 2], "ty": 1, "x": []}]
+    rj["types"]["bond"] = [coeff_text("r", "bond", i, rng) for i in range(2)]
+    rj["terms"]["angle"] = [{"a": [0, 1, 2], "ty": 0, "x": []}]
+    rj["types"]["angle"] = [coeff_text("r", "angle", 0, rng)]
+    opts = {"atol": 0.05, "fraction": 1.0, "replace_all": rng.random() < 0.15, "ignore": rng.random() < 0.8,
+            "seed": rng.randint(0, 10 ** 6)}
+    meta = {"pattern": "partial-overlap:%s" % variant, "cell": "ortho", "stream": "partial-overlap", "override_planned": 0,
+            "combo": {"bond": "TT", "angle": "TT", "dihedral": "s0N-r0N", "improper": "s0N-r0N"}}
+    return {"s": sj, "p": pj, "r": rj, "opts": opts, "meta": meta}
